@@ -451,6 +451,12 @@ func (c *Conn) loadSession(hello *clientHelloMsg) (
 	// valid for the ServerName. This should be ensured by the cache key, but
 	// protect the application from a faulty ClientSessionCache implementation.
 	// [UTLS SECTION START]
+	if len(session.peerCertificates) == 0 {
+		// A session forged without certificates (MakeClientSessionState(..., nil, nil))
+		// was resumed and its successor stored in the cache: there is nothing to check
+		// the server name or the validity period against, so do not resume from it.
+		return nil, nil, nil, nil
+	}
 	if !c.config.InsecureSkipTimeVerify {
 		if c.config.time().After(session.peerCertificates[0].NotAfter) {
 			// Expired certificate, delete the entry.
